@@ -613,7 +613,7 @@ impl super::MainState {
                         .send((user_nick.to_string(), comment.to_string()))
                         .map_err(|_| "error".to_string())?;
                     #[cfg(simple_irc_server_verif)]
-                    verif::sig_sent();
+                    verif::sig_sent_to(&user_to_kill.verif_key);
                 }
             } else {
                 self.feed_msg(
@@ -711,7 +711,7 @@ impl super::MainState {
                         .send((user_nick.to_string(), message.to_string()))
                         .map_err(|_| "error".to_string())?;
                     #[cfg(simple_irc_server_verif)]
-                    verif::sig_sent();
+                    verif::sig_sent_to(&u.verif_key);
                 }
             }
             if let Some(sender) = state.quit_sender.take() {
